@@ -21,7 +21,12 @@ BLEN = [0, 1, 2, 23, 24, 255, 256]
 INTS = [0, 1, 2, 3, 4, 5, 6, 7, 8, 9, 10, 23, 24, 25, 255, 256, 257, 65535, 65536, 2**32 - 1, 2**32, 2**63 - 2, 2**63 - 1,
         -1, -2, -24, -25, -256, -257, -65535, -65536, -65537, -65538, -2**32, -2**32 - 1, -2**63 + 1, -2**63]
 WIDE = [2**63, 2**63 + 1, 2**64 - 2, 2**64 - 1, -2**63 - 1, -2**63 - 2, -2**64 + 1, -2**64]
-TEXTS = [b'', b'a', b'b', b'aa', b'ab', b'a/b', b'text/plain', b' a/b', b'a/b ', b'a/b/c', 'é/x'.encode(), b'x' * 23, b'x' * 24, 'a '.encode(), ' a/b'.encode()]
+TEXTS = [b'', b'a', b'b', b'aa', b'ab', b'a/b', b'text/plain', b' a/b', b'a/b ', b'a/b/c', 'é/x'.encode(), b'x' * 23, b'x' * 24, 'a '.encode(), ' a/b'.encode(),
+         # alphabets (informed-adversary round, DESIGN.md §13): upper case and mixed case, digits only (a text that reads as a number is
+         # still a text), signs, multi-byte characters around the slash, and two texts of equal UTF-8 length whose UTF-16 order differs
+         # from their byte order (U+FF21 + '1' vs U+1F600)
+         b'Application/EDI-X12', b'TEXT/Plain', b'A/B', b'1', b'2', b'4', b'60', b'-7', b'+1', b'007', b'0', '\u20ac/b'.encode(), '\u00e9\u00e9/b'.encode(), 'a/\u20ac'.encode(),
+         '\uff211'.encode(), '\U0001f600'.encode(), '\u00e9/\u00e9/\u00e9'.encode(), b'Zz', b'zZ']
 
 class T(cosegen.G):
     """typed in-memory values as text forms"""
@@ -60,7 +65,7 @@ class T(cosegen.G):
         if r.random() < empty_p: return '(hdr - (crit) - b b b (cs) (rest))'
         alg = self.rlp('Algorithm', wild) if r.random() < 0.5 else '-'
         crit = [self.rl('HeaderParameter') for _ in range(r.choice([0, 0, 0, 1, 2]))]
-        ct = '-' if r.random() < 0.6 else (('X' + r.choice([b'a/b', b'text/plain'] + (TEXTS if wild else [])).hex()) if r.random() < 0.5 else 'A%d' % r.choice(reg_values('CoapContentFormat')))
+        ct = '-' if r.random() < 0.6 else (('X' + r.choice([b'a/b', b'text/plain', b'Application/EDI-X12', b'TEXT/Plain', 'A/\u00c9'.encode()] + (TEXTS if wild else [])).hex()) if r.random() < 0.5 else 'A%d' % r.choice(reg_values('CoapContentFormat')))
         kid = self.b(nonempty=True) if r.random() < 0.4 else 'b'
         iv = piv = 'b'
         x = r.random()
